@@ -691,7 +691,7 @@ def gen_C16(rng, tier):
 
 
 IDENTITIES = ["add_comm", "mul_comm", "add_assoc", "mul_assoc", "distrib", "demorgan", "sub_self", "double_neg",
-              "mask_where", "and_comm", "or_assoc"]
+              "mask_where", "and_comm", "or_assoc", "clip_masks", "clip_masks"]
 
 
 def gen_C12(rng, tier):
@@ -774,6 +774,11 @@ def gen_C12(rng, tier):
             P += [C.un(5, "invert", 0), C.un(3, "invert", 5), C.un(4, "make_boolean", 0)]
         elif ident == "mask_where":
             P += [C.mask(3, 0, 1), C.un(5, "invert", 1), C.mask(4, 0, 5, inverse=True)]
+        elif ident == "clip_masks":     # clip to a window = masking what lies outside it; window ends between the step points too
+            lo = rng.choice([None, F(1, 2), F(3, 2), F(5, 2), F(-1, 2), F(1), F(2)])
+            hi = rng.choice([None] + [x for x in (F(2), F(3), F(7, 2), F(4)) if lo is None or x > lo])
+            P += [C.clip(3, 0, lo, hi), C.maskt(5, 0, None, lo) if lo is not None else C.un(5, "copy", 0),
+                  C.maskt(4, 5, hi, None) if hi is not None else C.un(4, "copy", 5), C.read(3, "frame")]
         P += [C.query(3, "identical", a=R(4)), C.query(4, "identical", a=R(3)), C.query(3, "nsteps"), C.query(4, "nsteps")]
         cases.append(mk(f"C12/{ident}/{k}", P, flav(rng, any(has_nan(x) for x in (f, g, h))), tags=[ident]))
     return cases
@@ -791,13 +796,21 @@ def gen_C13_directed(rng, k):
         P.append(C.read(0, rng.choice(["deltas", "values", "frame"])))
     d = F(0)
     kind = rng.choice(["shift", "shift", "copy", "neg", "addc", "mulc", "rmulc", "clipnone", "wherenone", "fills", "mask1", "sub0",
-                       "diff", "addself", "agg", "agg", "agg1"])
+                       "diff", "addself", "agg", "agg", "agg1", "cliphi_at", "cliphi_at", "wherehi_at", "aggwin_at"])
     if kind in ("agg", "agg1"):       # collection aggregates (their initial value comes out of a numpy reduction)
         g2 = rand_leaf(rng, maxn=3, nan=0.0, grid=1, span=6, vals=[F(j) for j in range(-1, 3)])
         P.append(leaf_stmt(2, g2, c))
         P.append(C.agg(1, rng.choice(["sum", "mean", "median", "min", "max", "logical_or", "logical_and"]), [0, 2] if kind == "agg" else [0]))
     elif kind == "rmulc":
         P.append(C.bin_(1, "mul", C.cst(1), C.reg(0)))
+    elif kind in ("cliphi_at", "wherehi_at", "aggwin_at"):      # one-sided windows ending exactly on a step point of the operand
+        pt = rng.choice(f[0])
+        if kind == "cliphi_at":
+            P.append(C.clip(1, 0, None, pt))
+        elif kind == "wherehi_at":
+            P.append(C.maskt(1, 0, None, pt, inverse=True))
+        else:
+            P += [C.query(0, "agg", name=rng.choice(["max", "integral", "min"]), lo=None, hi=pt), C.un(1, "copy", 0)]
     elif kind == "shift":
         d = rng.choice([F(1), F(-1), F(2), F(10)])
         P.append(C.shift(1, 0, d))
